@@ -42,7 +42,7 @@ def save_image(path, a):
         tifffile.imwrite(path, a, photometric="rgb" if a.ndim == 3 else "minisblack")
 
 
-def write_stack(dirpath, insize, first_channel, rgb, dtype, ext, blank=None):
+def write_stack(dirpath, insize, first_channel, rgb, dtype, ext, blank=None, mixpix=False, drop_last=False):
     """one directory of slices; returns the number of channels it carries"""
     ncol, nrow, nsl = insize
     os.makedirs(dirpath, exist_ok=True)
@@ -53,7 +53,12 @@ def write_stack(dirpath, insize, first_channel, rgb, dtype, ext, blank=None):
         img = np.stack(planes, axis=-1) if rgb else planes[0]
         if blank and blank[s]:
             img = img * 0
-        save_image(os.path.join(dirpath, "slice_%04d%s" % (s, ext)), img.astype(dtype))
+        if drop_last and s == nsl - 1:
+            continue            # an INVALID stack: one slice fewer than the info announces
+        dt = dtype
+        if mixpix and not rgb and int(img.max()) <= 255:
+            dt = np.dtype("uint8")      # slices of one stack may have different pixel types
+        save_image(os.path.join(dirpath, "slice_%04d%s" % (s, ext)), img.astype(dt))
     return nch
 
 
@@ -66,18 +71,29 @@ def prepare_stack(work, plan):
     for k in range(plan["dirs"]):
         p = os.path.join(d, "in%d" % k)
         ch += write_stack(p, plan["insize"], ch, plan["rgb"], np.dtype(plan["pixel"]), plan["ext"],
-                          plan.get("blank"))
+                          plan.get("blank"), mixpix=bool(plan.get("mixpix")),
+                          drop_last=bool(plan.get("short")) and k == plan["dirs"] - 1)
         dirs.append(p)
     out = os.path.join(d, "out")
     size = out_size(plan["code"], plan["insize"])
     vd.write_info(out, size, plan["chunk"], ch, plan["out_dtype"], sharding=plan.get("sharding"))
     argv = dirs + [out, "--input-orientation", plan["code"]] + vd.storage_args(plan)
-    return {"dir": d, "out": out, "argv": argv, "channels": ch, "outsize": size}
+    return {"dir": d, "out": out, "argv": argv, "channels": ch, "outsize": size, "dirs": dirs,
+            "code": plan["code"]}
 
 
 def convert_inprocess(prepd, timeout):
     from neuroglancer_scripts.scripts import slices_to_precomputed as s2p
     return vd.run_main(s2p.main, ["slices-to-precomputed"] + prepd["argv"], timeout=timeout)
+
+
+def convert_api(prepd, timeout):
+    """The function API, called the way a script converting several stacks in one
+    process calls it: no options dictionary of its own."""
+    from neuroglancer_scripts.scripts import slices_to_precomputed as s2p
+    return vd.run_main(lambda _argv: s2p.convert_slices_in_directory(
+        [__import__("pathlib").Path(p) for p in prepd["dirs"]], prepd["out"], input_orientation=prepd["code"]),
+        [], timeout=timeout)
 
 
 def convert_subprocess(prepd, timeout):
@@ -90,6 +106,7 @@ def slice_case(plan, prepd, res):
             "outsize": prepd["outsize"], "channels": prepd["channels"],
             "depth": plan["chunk"][AXIS[plan["code"][2]]],
             "blank": list(plan.get("blank") or [0] * plan["insize"][2]),
+            "invalid": bool(plan.get("short")),
             "run": {"outcome": res["outcome"], "exit": res["exit"]}}
     n = prepd["channels"] * int(np.prod(plan["insize"]))
     missing_cls = []
